@@ -202,7 +202,7 @@ Lemma spell_from_spec : forall kpre kpost cs c0, (1 <= kpost)%nat ->
   exists ct, 0 <= ct < 12 /\
     sp = spell_cm (chromatic_pitch (r_pitch r)) (mftc c0 (chromatic_pitch (r_pitch r) mod 12) ct).
 Proof.
-  intros kpre kpost cs c0 Hk rs. induction rs as [|r0 rs IH]; intros j Hinv r sp; cbn; [intros []|].
+  intros kpre kpost cs c0 Hk rs. induction rs as [|r0 rs IH]; intros j Hinv r sp; cbn [spell_from In]; [intros []|].
   intros [E|Hin].
   - inversion E; subst r0 sp; clear E.
     destruct (Hinv 0%nat r eq_refl) as [H1 H2]. rewrite Nat.add_0_r in *.
@@ -249,12 +249,24 @@ Proof.
   apply sweep_spec; assumption.
 Qed.
 
-Lemma ps13_sounds_lemma : forall kpre kpost rows r sp, (1 <= kpost)%nat ->
+(* pitch preservation does not depend on the heuristic at all: every entry is p2pn of the row's
+   chromatic pitch and SOME morphetic pitch (any context sizes, K_post = 0 included) *)
+Lemma spell_from_shape : forall kpre kpost cs c0 rs j r sp,
+  In (r, sp) (spell_from kpre kpost cs c0 j rs) ->
+  exists mp, sp = p2pn (chromatic_pitch (r_pitch r)) mp.
+Proof.
+  intros kpre kpost cs c0 rs. induction rs as [|r0 rs IH]; intros j r sp; cbn [spell_from In]; [intros []|].
+  intros [E|Hin].
+  - inversion E; subst r0 sp. unfold spell_cm. eexists. reflexivity.
+  - apply (IH (S j)). exact Hin.
+Qed.
+
+Lemma ps13_sounds_lemma : forall kpre kpost rows r sp,
   In (r, sp) (spell_tab kpre kpost rows) -> midi_of sp = Some (r_pitch r).
 Proof.
-  intros kpre kpost rows r sp Hk Hin.
-  destruct (spell_tab_spec _ _ _ _ _ Hk Hin) as [c0 [ct [H0 [H1 ->]]]].
-  unfold spell_cm. rewrite p2pn_sounds_lemma. unfold chromatic_pitch. f_equal. lia.
+  intros kpre kpost rows r sp Hin. unfold spell_tab in Hin.
+  destruct (spell_from_shape _ _ _ _ _ _ _ _ Hin) as [mp ->].
+  rewrite p2pn_sounds_lemma. unfold chromatic_pitch. f_equal. lia.
 Qed.
 
 (* ------------------------------------------------------------------ *)
@@ -283,7 +295,7 @@ Qed.
 Lemma row_le_antisym : forall a b, row_le a b -> row_le b a -> a = b.
 Proof.
   intros [[a1 a2] a3] [[b1 b2] b3]. unfold row_le, row_leb, r_onset, r_pitch, r_dur. cbn [fst snd].
-  intros H1 H2. brk; try discriminate. repeat f_equal; lia.
+  intros H1 H2. brk; try discriminate; zb; repeat f_equal; lia.
 Qed.
 
 Lemma ps_insert_perm : forall x l, Permutation (ps_insert x l) (x :: l).
